@@ -261,7 +261,15 @@ def derive_pattern(rng, entries, min_prefix=0, prefix_s=''):
     if any(refglob.is_glob_component(c) for c in comps[:k]):
         return None
     rest = [generalise(rng, c) for c in comps[k:]]
-    nss = rng.choice([0, 0, 0, 1, 1, 1, 1, 2, 2, 3])
+    if len(rest) >= 2 and rng.random() < 0.12:
+        # three or more SEPARATE '**' runs, each of which has to match nothing at all for
+        # the entry the pattern was derived from ('**/a/**/b/**/f.c' finds a/b/f.c)
+        rest = [x for c in rest for x in ('**', c)]
+        if rng.random() < 0.5:
+            rest.insert(len(rest) - 1, '**')      # ... the last run two stars long
+        nss = 0
+    else:
+        nss = rng.choice([0, 0, 0, 1, 1, 1, 1, 2, 2, 3])
     for _ in range(nss):
         i = rng.randint(0, len(rest))
         j = min(len(rest), i + rng.choice([0, 0, 1, 1, 2, 3]))
